@@ -727,6 +727,19 @@ def gen_C01(rng, n):
         a2 = rng.randrange(r)
         c = rng.randrange(r)
         out.append((f'law.additive:{e}', f'law.additive@{e} {h32(a)} {h32(a2)} {h32(b)} {h32(c)}'))
+    # additivity on explicit representatives: the same point twice in two representations (the sum is a doubling that
+    # only a representation-independent test recognises), P and -P (the sum is a non-canonical identity), identities
+    k = rng.randrange(3)
+    for _ in range(max(3, n // 2)):
+        e = ['pairing', 'fast', 'prep'][k % 3]; k += 1
+        l1, A, A2 = point_pair(rng, K1, P1)
+        l2, Bq, B2 = point_pair(rng, K2, P2)
+        ra, ta = rep(rng, K1, A); ra2, ta2 = rep(rng, K1, A2)
+        rb, tb = rep(rng, K2, Bq); rb2, tb2 = rep(rng, K2, B2)
+        out.append((f'law.additive2:{e}:{l1}/{l2}', f'law.additive2@{e} {ta} {ta2} {tb} {tb2}'))
+    for e in ['pairing', 'fast', 'prep']:
+        A = pt_mul(K1, rng.randrange(1, r), P1); Bq = pt_mul(K2, rng.randrange(1, r), P2)
+        out.append((f'law.additive2:{e}:equal-reps', f'law.additive2@{e} {rep(rng, K1, A, "z=lambda")[1]} {rep(rng, K1, A, "z=1")[1]} {rep(rng, K2, Bq, "z=1")[1]} {rep(rng, K2, Bq, "z=lambda")[1]}'))
     for e in ['pairing', 'fast', 'prep']:
         out.append((f'law.identity:{e}', f'law.identity@{e} {rep(rng, K1, None)[1]} {rep(rng, K2, None)[1]}'))
         out.append((f'law.nondegenerate:{e}', f'law.nondegenerate@{e}'))
